@@ -26,6 +26,13 @@ CLAIMED = {
         note=TB + "; class-level clauses are bounded (fixed family), not proved.",
         technique="contract-based deductive verification (lambda-array symbolic execution, z3/cvc5) + bounded contract evaluation on the real classes",
     ),
+    "C05": dict(
+        category="proof",
+        text="geometry.faces_to_edges is proved for EVERY face count N and every integer index (lambda arrays: edge 3i+k = (F[i,k], F[i,k+1 mod 3]), face index 3i+k = i, 3N edges), Trimesh.edges_sorted = row-wise (min,max) for every N, Trimesh.euler_number = |referenced vertices| - |unique edges| + |faces| (ghost self). Everything that needs cardinalities over a partition or an external graph engine - unique edges and their inverse, face adjacency with shared edge and unshared vertices, referenced vertices, watertightness, winding consistency, vertex neighbours / incident faces / degree, body count, connected components and split with both engines - is decided by EXHAUSTIVE enumeration on the real classes against a direct-counting oracle: every face array with one or two faces over six vertices (the queries depend only on the order/equality pattern of the index slots, so two faces are covered for all indices), every three-face array over three vertices (four in the thorough tier), a seeded sample of 3-5 faces over 3-6 vertices; Gauss-Bonnet on closed manifold meshes of genus 0/1 and two bodies.",
+        design_ref="DESIGN.md §4 C05",
+        note=TB + "; (M4) connected-components engines are assumed contracts compared against a union-find oracle; the adjacency/watertightness part is bounded (exhaustive small scope), not proved: a symbolic run of face_adjacency for two faces explodes into >10^4 orderings and did not finish.",
+        technique="contract-based deductive verification (lambda-array symbolic execution for faces_to_edges/edges_sorted, ghost-self contract for euler_number) + exhaustive small-scope contract evaluation on the real classes against a direct-counting oracle",
+    ),
     "C06": dict(
         category="proof",
         text="grouping.hashable_rows is proved injective and equality-preserving on int64 rows of 1-4 columns for ALL 2^64 values per element (z3 bit-vectors, the column loop executed), float_to_int against the rounding definition; group, unique_rows (both orders), group_rows (with/without require_count), unique_ordered, unique_bincount, merge_runs, unique_value_in_row, blocks (incl. wrap/only_nonzero), group_min are proved against direct element-by-element definitions for all integer values at small fixed lengths (bounded shape, every ordering/equality pattern explored) with hashable_rows replaced by its proved contract; the same contract texts are then evaluated exhaustively on the real code over small alphabets and at the bit-packing limits.",
